@@ -258,7 +258,21 @@ func (p *Proc) newShell(env *wire.Env) *readline.Shell {
 		sh.Prompt.Right(func() string { return rp })
 	}
 	for _, b := range env.Binds {
-		sh.Config.Bind(b.Keymap, string(b.Seq), b.Action, b.Macro)
+		seq := string(b.Seq)
+		if b.Meta {
+			var rs []rune
+			bs := []byte(seq)
+			for i := 0; i < len(bs); i++ {
+				if bs[i] == 0x1b && i+1 < len(bs) && bs[i+1] < 0x80 {
+					rs = append(rs, inputrc.Enmeta(rune(bs[i+1])))
+					i++
+					continue
+				}
+				rs = append(rs, rune(bs[i]))
+			}
+			seq = string(rs)
+		}
+		sh.Config.Bind(b.Keymap, seq, b.Action, b.Macro)
 	}
 	if env.NoDefaultHistory {
 		sh.History.Delete()
